@@ -196,7 +196,7 @@ pub fn judge_purl(ops: &[COp], spelling: &str) -> Option<Fail> {
 // --- generation ------------------------------------------------------------------------------
 
 fn rand_alg(r: &mut Rng) -> String {
-    let n = *r.pick(&[0usize, 1, 2, 3, 4, 6, 10, 30]);
+    let n = *r.pick(&[0usize, 1, 2, 3, 4, 6, 10, 22, 23, 24, 30]);
     let mut s = String::new();
     for _ in 0..n {
         let c = match r.below(24) {
